@@ -40,12 +40,19 @@ def main():
                 continue
             env = dict(os.environ, PYTHONPATH=wt)
             demo, _ = sh('/venv/bin/python %s' % os.path.join(d, 'demo.py'), cwd=wt, env=env)
+            meta = json.load(open(os.path.join(d, 'meta.json')))
             env = dict(os.environ, FVMON_REPO=wt)
-            rc, o = sh('./check %s --tier quick' % prop, cwd=VERIF, env=env)
-            sigs = [l.strip()[4:60] for l in o.splitlines() if l.startswith('  sig=')]
+            rc, sigs = 0, []
+            for chk in meta.get('checks') or [prop]:
+                rc1, o = sh('./check %s --tier quick' % chk, cwd=VERIF, env=env)
+                sigs += ['%s:%s' % (chk, l.strip()[4:60]) for l in o.splitlines()
+                         if l.startswith('  sig=')]
+                rc = 1 if rc1 == 1 else (rc or rc1)
             verdict = 'caught' if rc == 1 else ('NOT CAUGHT rc=%d' % rc)
             if demo == 0:
                 verdict += ' (demo exits 0: the change does not break the property on this tree)'
+            elif meta.get('expected') == 'not-caught':
+                verdict += ' (expected: %s)' % meta.get('expected_why', '')[:80]
             elif rc != 1:
                 bad += 1
             print('%-45s demo=%d check=%d %s %s' % (sid, demo, rc, verdict, sigs[:2]))
